@@ -136,6 +136,13 @@ bool Component::ComponentImpl::performTestWithHistory(History &history, const Co
         history.push_back(h);
         bool result = importedComponent->pFunc()->performTestWithHistory(history, importedComponent, type);
         history.pop_back();
+
+        // An import component can itself encapsulate components (through the encapsulation of the importing model): test them as well.
+        for (size_t i = 0; result && (i < mComponent->componentCount()); ++i) {
+            auto currentComponent = mComponent->component(i);
+            result = currentComponent->pFunc()->performTestWithHistory(history, currentComponent, type);
+        }
+
         return result;
     }
 
